@@ -30,7 +30,8 @@ theorem tokenize_render (ls : List Line) (hne : ls ≠ []) (hok : ∀ l ∈ ls, 
   have h1 := splitLines_renderFile ls hne hnl
   have h2 := parseLines_lines (renderFile ls) ls 1 {} rfl rfl hok
   refine ⟨{ ({} : St) with toks := (fileToks 1 true ls).reverse ++ [] }, ?_, rfl, rfl⟩
-  simp [tokenize, h1, h2, dflt]
+  have hB : dflt.addCurlyBraces = false := rfl
+  simp [tokenize, h1, h2, hB]
 
 /-- (a) one token per lexeme, in order: values and flags of the tokens of a line are those of its lexemes
     (`empty` = no token before: the first token of a tokenizer is never flagged as a doxygen comment) -/
